@@ -4,7 +4,7 @@
 # Without arguments the table below is used.  Output: one line per fix.
 set -u
 cd "$(dirname "$0")/.."
-TABLE="76ecba9:C07 2453bda:C01 bfdb3b9:C17 8fa8518:C16 c45d952:C16 fea5ed0:C05 e79b48f:C05 2463430:C09 8ef57ec:C09 97bfbd3:C09 1a548c8:C20 0e3141b:C20 79717b0:C20 4ef75dc:C20 d555053:C10 a7ca883:C03 73fa442:C01 d58a10b:C08 b47ac29:C06 07306b8:C04 4e5f3aa:C03 2dc0613:C13 448995f:C19 38a5148:C08 6065123:C08 d584058:C03 0ef53f1:C09 c0222e1:C08 5353cf8:C12 73adb28:C12 4fb808f:C18 f01da04:C18 b6c6225:C11 202513c:C11 f9a73b1:C12 6a387c7:C03 4825608:C03"
+TABLE="76ecba9:C07 2453bda:C01 bfdb3b9:C17 8fa8518:C16 c45d952:C16 fea5ed0:C05 e79b48f:C05 2463430:C09 8ef57ec:C09 97bfbd3:C09 1a548c8:C20 0e3141b:C20 79717b0:C20 4ef75dc:C20 d555053:C10 a7ca883:C03 73fa442:C01 d58a10b:C08 b47ac29:C06 07306b8:C04 4e5f3aa:C03 2dc0613:C13 448995f:C19 38a5148:C08 6065123:C08 d584058:C03 0ef53f1:C09 c0222e1:C08 5353cf8:C12 73adb28:C12 4fb808f:C18 f01da04:C18 b6c6225:C11 202513c:C11 f9a73b1:C12 6a387c7:C03 4825608:C03 b9f2666:C03 1cc9708:C12 1600f32:C12 18b0c17:C12 edd4d0c:C09 2ff94db:C12 20fe73c:C18"
 [ $# -gt 0 ] && TABLE="$*"
 OUT=$(mktemp -d /tmp/eio-revert-XXXX)
 for ent in $TABLE; do
